@@ -60,6 +60,17 @@ check("C08", "model_checking",
       "exhaustive configuration enumeration under a controlled scheduler + deviation-bounded schedule DFS",
       "DESIGN.md §4 C08")
 
+check("C09", "model_checking",
+      "Every sequence of connect(host, connection) / close(connection) over hosts {A,B} x connections {c1,c2,c3} up to depth 7 (quick) / 9 (thorough) is executed on the real pool (real signed vipnode_connect carrying the connection object in its context, CloseRemote) next to a registry model; after every event a peer request started afterwards must reach exactly the live, most recently registered connection of each host and NumRemotes must equal the number of such hosts. Closes racing an in-flight peer request and a reconnect are explored under the controlled scheduler with statement-granular points in the registry code; a probe started after all threads finished is judged.",
+      "Depth / preemption bounds; requests in flight during a close are unconstrained (as stated by the property); the server.go link (serve loop ends => CloseRemote) is covered by the wire-level checks.",
+      "explicit-state BFS vs registry model + preemption-bounded schedule DFS",
+      "DESIGN.md §4 C09")
+check("C10", "model_checking",
+      "11 scenarios of 2-3 concurrent signed requests (keep-alives of clients sharing a host, duplicate and same-client keep-alives, reconnect, wallet link, withdraw, peer request) per driver are executed under every interleaving within a preemption bound, with scheduling points at every statement of the memory driver, inside badger transaction closures, in the balance manager and the pool service; the outcome (balances, links, peer sets, payouts, accept/reject per call) must equal that of some sequential permutation of the same requests run on the real code (differential oracle, no hand-written expectation). Snapshot immutability: BFS over store operation sequences in which every value ever handed out is deep-copied at hand-out and re-compared after each later operation. A free-running -race pass over the same scenario bodies is attached as supplementary, non-deciding evidence.",
+      "Sequential consistency (a data race in the memory-model sense can only be reported, not excluded, by the -race pass); preemption / depth bounds; bookkeeping fields outside the property (BlockNumber, LastSeen) not compared.",
+      "preemption-bounded schedule DFS with differential serial oracle + explicit-state BFS (aliasing) + supplementary -race pass",
+      "DESIGN.md §4 C10")
+
 ALL = ["C%02d" % i for i in range(1, 21)]
 NA_REASON = "check not built yet (work in progress; see DESIGN.md §4 for the planned model-checking design)"
 
